@@ -22,6 +22,9 @@ DECIDED = [
     'their own name and read nothing else (__ne__ inherited from __eq__)',
     'R3 __hash__ reads a subset of what __eq__ reads and nothing that is written after construction',
     'R4 to_raw / from_raw of every dimension raise on every path for each of the 34 units of other dimensions',
+    'R5 get_in (>>) raises, and convert (<<) and Unit.X(quantity) raise or hand back a quantity whose unit_value / get_in '
+    'raise, on every path for every quantity dimension and each unit of another dimension (7 x 3 x 34 evaluations); no '
+    'memoising decorator on the quantity classes or on Unit',
 ]
 NOT_DECIDED = ['nothing further (the magnitude of a quantity reached through an arbitrary alias is covered by the '
                'who-may-write inventory, which is name based: an attribute called _value is assumed to be the magnitude)']
@@ -61,6 +64,7 @@ def run(prog: Program, rep, thorough: bool) -> None:
     rep.rule('C13.R2', 'comparison dunders compare the magnitude only', 5 + 1)
     rep.rule('C13.R3', 'hash reads a subset of what equality reads', 1)
     rep.rule('C13.R4', 'foreign units raise', 14)
+    rep.rule('C13.R5', 'get_in / convert / Unit.X(quantity) never yield a number in a foreign unit', 21)
     umod = prog.module(C.M_UNIT)
     base = prog.cls(C.M_UNIT, 'AbstractDimension')
     dims = C.dimension_classes(prog)
@@ -192,7 +196,7 @@ def run(prog: Program, rep, thorough: bool) -> None:
     else:
         rep.ok('C13.R1', conv.where, 'convert reaches no conversion routine and builds no new quantity: the magnitude is kept bit for bit')
     memo = []
-    for c in hierarchy:
+    for c in hierarchy + [C.unit_class(prog)]:
         for nm, m in list(c.methods.items()) + list(c.setters.items()):
             for d in m.decorators:
                 if d.split('.')[-1] in ('lru_cache', 'cache', 'cached_property'):
@@ -202,8 +206,8 @@ def run(prog: Program, rep, thorough: bool) -> None:
         rep.fail('C13.R4' if m.name in ('get_in', 'from_raw', 'to_raw') else 'C13.R1', umod.path, m.node.lineno, m.qualname,
                  f'memo:{m.name}',
                  f'{m.qualname} is memoised with @{d}: the cache is keyed by __hash__/__eq__, which read the base-unit magnitude '
-                 f'only, so a quantity of another dimension (or in another display unit) with the same magnitude is answered '
-                 f'from the cache instead of raising / being converted')
+                 f'only, so a quantity of another dimension (or in another display unit, or a plain number equal to the '
+                 f'magnitude) is answered from the cache instead of raising / being converted / being built')
     else:
         rep.ok('C13.R1', f'{umod.path}:{base.node.lineno}', 'no memoising decorator on the quantity classes')
 
@@ -306,6 +310,57 @@ def run(prog: Program, rep, thorough: bool) -> None:
                          f'{dname}.{fname} yields a number for units of another dimension: {leaks[:3]}')
             else:
                 rep.ok('C13.R4', f.where, f'{dname}.{fname}: all {len(foreign)} foreign units raise on every path')
+    # ---- R5: every public route that reads or relabels a quantity in a foreign unit raises -------------------------
+    call = prog.func(C.M_UNIT, 'Unit.__call__')
+    routes = []
+    for nm in ('get_in', 'convert'):
+        m = prog.find_method(base, nm)
+        if m is None:
+            raise AnalysisError(f'AbstractDimension.{nm} vanished')
+        routes.append((nm, m))
+    rep.saw(call)
+    for dname, ci in sorted(dims.items()):
+        own = set(C.declared_units(prog, ci).values())
+        own_u = sorted(own)[0]
+        foreign = [u for u in members if u not in own]
+        for label, m in routes + [('Unit.<foreign>(quantity)', call)]:
+            leaks = []
+            for u in foreign:
+                st = State()
+                q = C.mk_quantity(ev, st, prog, dname, 'raw', own_u)
+                uv = EnumVal(ucls, u, members[u])
+                try:
+                    if m is call:
+                        r, st = ev.call_value(call, [q], self_val=uv, st=st)
+                    else:
+                        r, st = ev.call_value(m, [uv], self_val=q, st=st)
+                except Undecided as exc:
+                    raise AnalysisError(f'{dname} {label} with Unit.{u}: {exc}') from exc
+                for _p, leaf in cond_leaves(r):
+                    if isinstance(leaf, Raised):
+                        continue
+                    if m.name == 'get_in':
+                        leaks.append(f'Unit.{u} -> {leaf!r}')
+                        break
+                    # a relabelled (or rebuilt) quantity: the number must still be unreadable in the foreign unit
+                    if not isinstance(leaf, Inst):
+                        leaks.append(f'Unit.{u} -> {leaf!r}')
+                        break
+                    try:
+                        reads = [ev.getattr(leaf, 'unit_value', st, Ctx(umod, None, None, 0)),
+                                 ev.call_value(routes[0][1], [uv], self_val=leaf, st=st)[0]]
+                    except Undecided as exc:
+                        raise AnalysisError(f'{dname} {label} with Unit.{u}, then read: {exc}') from exc
+                    if any(not isinstance(x, Raised) for rd in reads for _q, x in cond_leaves(rd)):
+                        leaks.append(f'Unit.{u} -> a {leaf.cls.name} readable in Unit.{u}')
+                        break
+            where = m.where
+            if leaks:
+                rep.fail('C13.R5', umod.path, m.node.lineno, m.qualname, f'{dname}:{label}',
+                         f'a {dname} quantity goes through {label} with a unit of another dimension and yields a number in '
+                         f'that unit instead of a conversion error: {leaks[:3]}')
+            else:
+                rep.ok('C13.R5', where, f'{dname}: {label} never yields a number for any of the {len(foreign)} foreign units (it raises, or the result raises when read)')
     rep.assume('the instance __dict__ of a quantity is empty: R1 shows that no code stores any attribute other than '
                'the two slots on a quantity (name-based inventory)')
     rep.extra['magnitude_store_sites'] = n_mag
@@ -317,6 +372,8 @@ VARIANTS = [
     Variant('convert-rederives-magnitude', 'break', [(U, '        self._defined_units = units\n        return self\n', '        self._value = self.to_raw(self.from_raw(self._value, units), units)\n        self._defined_units = units\n        return self\n')], 'C13.R1', 'round trip through the new unit', 'pass'),
     Variant('lt-compares-display-value', 'break', [(U, '    def __lt__(self, other):\n        return float(self) < other', '    def __lt__(self, other):\n        return self.unit_value < other')], 'C13.R2', 'positive control', 'caught'),
     Variant('hash-over-value-and-units', 'break', [(U, 'return hash(self._value)', 'return hash((self._value, self.units))')], 'C13.R3', 'the defect repaired in /repo'),
+    Variant('unit-call-floats-foreign-quantity', 'break', [(U, '        if isinstance(value, AbstractDimension):\n            return value << self  # type: ignore\n', '        if isinstance(value, AbstractDimension):\n            if self in value.__class__.__dict__.values():\n                return value << self  # type: ignore\n            value = float(value)\n')], 'C13.R5', 'seeded change C13/6 in spirit: a quantity of another dimension is rebuilt from its raw magnitude'),
+    Variant('unit-call-memoised', 'break', [(U, '    def __call__(self: Self, value: Union[int, float, AbstractDimensionType]) -> AbstractDimensionType:', '    @lru_cache(maxsize=4096)\n    def __call__(self: Self, value: Union[int, float, AbstractDimensionType]) -> AbstractDimensionType:'), (U, 'from enum import IntEnum\n', 'from enum import IntEnum\nfrom functools import lru_cache\n')], 'C13.R1', 'seeded change C06/4'),
     Variant('distance-accepts-velocity-unit', 'break', [(U, '        if units == Distance.Inch:\n            return value\n        if units == Distance.Foot:\n            result = value / 12', '        if units == Distance.Inch or units == Unit.MPS:\n            return value\n        if units == Distance.Foot:\n            result = value / 12')], 'C13.R4'),
     Variant('validate-returns-for-foreign', 'break', [(U, "            raise UnitConversionError(f'{self.__class__.__name__}: unit {units} is not supported')", "            logger.warning(f'{self.__class__.__name__}: unit {units} is not supported')")], 'C13.R4'),
     Variant('magnitude-setter', 'break', [(U, '    @property\n    def raw_value(self) -> float:', '    def set_raw(self, v):\n        self._value = v\n\n    @property\n    def raw_value(self) -> float:')], 'C13.R1'),
